@@ -163,6 +163,21 @@ impl Expr {
             Expr::Map(xs) => xs.iter().map(|(k, v)| k.size() + v.size()).sum(),
         }
     }
+    /// a copy with every string literal rewritten by `f`
+    pub fn map_strings(&self, f: &dyn Fn(&str) -> String) -> Expr {
+        let m = |x: &Expr| x.map_strings(f);
+        match self {
+            Expr::Lit(Val::Str(s)) => Expr::Lit(Val::Str(f(s))),
+            Expr::Lit(_) | Expr::Ref(_) => self.clone(),
+            Expr::Call(n, a) => Expr::Call(n.clone(), a.iter().map(m).collect()),
+            Expr::List(a) => Expr::List(a.iter().map(m).collect()),
+            Expr::Un(op, x) => Expr::Un(op.clone(), Box::new(m(x))),
+            Expr::Post(x, op) => Expr::Post(Box::new(m(x)), op.clone()),
+            Expr::Bin(op, l, r) => Expr::Bin(op.clone(), Box::new(m(l)), Box::new(m(r))),
+            Expr::Tern(c, a, b) => Expr::Tern(Box::new(m(c)), Box::new(m(a)), Box::new(m(b))),
+            Expr::Map(xs) => Expr::Map(xs.iter().map(|(k, v)| (m(k), m(v))).collect()),
+        }
+    }
     /// direct children, left to right
     pub fn children(&self) -> Vec<&Expr> {
         match self {
